@@ -73,6 +73,7 @@ OPS = {
     'spop': lambda c: c.pop(),
     'supdate': lambda c, it: c.update(it),
     'isdisjoint': lambda c, it: c.isdisjoint(it),
+    'sindex': lambda c, i: c[i],        # Set only: IKeySequence indexing
     'ior': _ior, 'iand': _iand, 'isub': _isub, 'ixor': _ixor,
 }
 
